@@ -597,6 +597,7 @@ impl WorldSys {
 			},
 			Action::WriteManager(n) => {
 				self.w.nodes[*n].write_manager();
+				self.w.note_manager_written(*n);
 				self.w.manager_dirty[*n] = false;
 			},
 			Action::Finish => {
@@ -622,8 +623,7 @@ impl WorldSys {
 				self.held_manager[*n] = false;
 				self.w.manager_write_held[*n] = false;
 				self.w.nodes[*n].write_manager();
-				self.w.mgr_known_ids[*n] = self.w.live_ids[*n].clone();
-				self.w.mgr_known_open[*n] = self.w.nodes[*n].cm.list_channels().iter().map(|c| c.channel_id).collect();
+				self.w.note_manager_written(*n);
 			},
 			Action::ReleaseLink(f, t) => {
 				self.held_links.remove(&(*f, *t));
